@@ -465,7 +465,6 @@ class SimQueue:
 
 def threading_shim(sched, sems):
     """A stand-in for the ``threading`` module as seen by testtools.testsuite."""
-    ns = types.SimpleNamespace()
 
     def Thread(group=None, target=None, name=None, args=(), kwargs=None, daemon=None):
         return SimThread(sched, target=target, args=args, kwargs=kwargs, name=name, daemon=daemon)
@@ -475,10 +474,55 @@ def threading_shim(sched, sems):
         sems.append(sem)
         return sem
 
+    def Lock():
+        # (not added to `sems`: the checks read that list as "the semaphore handed to the forwarders")
+        return SimSemaphore(sched, 1, name="lock")
+
+    def Event():
+        return SimEvent(sched)
+
+    ns = _Shim()
     ns.Thread = Thread
     ns.Semaphore = Semaphore
+    ns.BoundedSemaphore = Semaphore
+    ns.Lock = Lock
+    ns.Event = Event
     ns.current_thread = _real_threading.current_thread
     return ns
+
+
+class HarnessLimit(RuntimeError):
+    """The code under test asked the simulator for something it does not simulate (raised from a
+    /verif frame on purpose: this is a limit of the harness, exit 2, never a verdict on the code)."""
+
+
+class _Shim(types.SimpleNamespace):
+    def __getattr__(self, name):
+        raise HarnessLimit(f"the simulated threading module has no {name!r}: the tree under test uses a primitive the "
+                           f"simulator does not model")
+
+
+class SimEvent:
+    def __init__(self, sched):
+        self._s = sched
+        self._flag = False
+
+    def is_set(self):
+        return self._flag
+
+    def set(self):
+        self._flag = True
+        if not self._s.aborting:
+            self._s.yield_point("event-set")
+
+    def clear(self):
+        self._flag = False
+
+    def wait(self, timeout=None):
+        if self._s.aborting:
+            raise SimAbort()
+        self._s.block_until(lambda: self._flag, "event", kind="event-wait")
+        return True
 
 
 def draw_policy(tape, est_steps, stream="config"):
